@@ -182,6 +182,10 @@ def _gen_wash(rng):
     nper = rng.choice([0, 1, 1, 1, 2])
     for name in rng.sample(sorted(WASH), nper):
         p[name] = _wash_value(name, rng.choice(WASH_MODES), rng)
+    if rng.random() < 0.2:
+        # switches written the Python way: True / False are the integers 1 / 0
+        for name in rng.sample([n for n, (lo, hi, kind) in WASH.items() if kind == "int" and lo == 0], rng.randint(1, 2)):
+            p[name] = rng.choice([True, False])
     k = rng.randint(1, 8)
     nums = [rng.randint(1, 8) for _ in range(k)] if rng.random() < 0.3 else rng.sample(range(1, 9), k)
     tips = [_mem(rng, n) for n in nums]
@@ -697,6 +701,9 @@ def run_case(ctx, case):
 def _wash_class(name, v):
     """'ok' | 'range' | 'type' for one evo_wash parameter value (documented range and documented type)."""
     lo, hi, kind = WASH[name]
+    if isinstance(v, bool) and kind == "int":
+        # True / False are the integers 1 / 0: inside the range the command must carry 1 / 0 (never the word)
+        return "ok" if lo <= int(v) <= hi else "range"
     if v is None or isinstance(v, (str, bool)):
         return "type"
     if kind == "int":
